@@ -541,7 +541,13 @@ func (c *converter) Exists(path string, valueUsed bool) (string, error) {
 
 func (c *converter) ReadFile(path string, valueUsed bool) (string, error) {
 	helper := c.nextHelperVar()
-	c.VarAssignment(helper, fmt.Sprintf("$(cat -- \"%s\")", path), false)
+	name := c.varName(helper, false)
+
+	// Command substitution drops every trailing newline. To get back exactly what write() stored
+	// (content plus one newline), protect the end with a marker and remove marker and one newline.
+	c.VarAssignment(helper, fmt.Sprintf("$(cat -- \"%s\"; printf x)", path), false)
+	c.addLine(fmt.Sprintf(`%s="${%s%%x}"`, name, name))
+	c.addLine(fmt.Sprintf(`%s="${%s%%$'\n'}"`, name, name))
 	return c.VarEvaluation(helper, valueUsed, false)
 }
 
